@@ -281,8 +281,9 @@ def read_deriv(body):
     lines = body.split('\n')
     if lines and lines[-1] == '':
         lines = lines[:-1]
-    cats = lines[0].split()
-    words = lines[1].split()
+    # fields end at the ASCII blank only: other Unicode white space is part of a word
+    cats = [f for f in lines[0].split(' ') if f]
+    words = [f for f in lines[1].split(' ') if f]
     if len(cats) != len(words):
         raise DecodeError('header rows')
     cols = []
@@ -304,7 +305,7 @@ def read_deriv(body):
         inside = [f for f in forest if f[0] >= lw and f[1] <= rw]
         if not inside or len(inside) > 2 or inside[0][0] != lw or inside[-1][1] != rw:
             raise DecodeError('rule line does not cover whole sub-derivations')
-        node = ('N', catline.strip(), sym, None, [f[2] for f in inside])
+        node = ('N', catline.strip(' '), sym, None, [f[2] for f in inside])
         i = forest.index(inside[0])
         forest[i:i + len(inside)] = [(lw, rw, node)]
     if len(forest) != 1:
